@@ -93,7 +93,9 @@ def check_join(ctx, base_s, ref_s, part, sig_extra=(), benc=False, renc=False):
     bclass = ("A" if B[1] is not None else "noA", "p0" if B[2] == "" else ("p/" if B[2].endswith("/") else "p"), "%" in (B[2] or ""), B[3] is not None, B[4] is not None)
     ctx.ev(None if trivial else (bclass, branch, "." in ref_s, "?" in ref_s, "#" in ref_s) + sig_extra)
     ctx.count("branch_" + branch)
-    if B[0] is None:
+    if B[0] is None and B[1] is None and branch != "netpath":
+        # a path-only base (no scheme, no authority) with a path-only reference: plain path arithmetic, left out (D19's neighbourhood);
+        # a scheme-less base WITH an authority ('//cdn.example/a') and every network-path reference are judged like any other
         ctx.count("out_of_domain_schemeless_base")
         return
     E = (exp[0], exp[1], norm_path(exp[1], exp[2]), exp[3], exp[4])
@@ -106,7 +108,8 @@ def check_join(ctx, base_s, ref_s, part, sig_extra=(), benc=False, renc=False):
 
 
 # the last four take an authority (urllib's uses_netloc) but do NOT support relative resolution (not in uses_relative)
-BASE_SCHEMES = ["http", "https", "ftp", "file", "ws", "git", "rsync", "telnet", "git+ssh"]
+# ("" = a base without scheme: a network-path or path-only reference used as base; the algorithm is the same, T.scheme stays undefined)
+BASE_SCHEMES = ["http", "https", "ftp", "file", "ws", "git", "rsync", "telnet", "git+ssh", ""]
 BASE_AUTH = ["h", "u:p@h:81", "[::1]", None]
 BASE_PATHS = ["", "/", "/a", "/a/", "/a/b", "/a/b/", "/a%20b/c", "/a%2Fb/c%3Fd", "/a%25/%23b/", "/a/b/c/d;p",
               # empty segments: in front of the last segment, leading, trailing
@@ -120,14 +123,17 @@ def bases():
         for au in BASE_AUTH:
             for p in BASE_PATHS:
                 for q, f in BASE_QF:
+                    pre = sch + ":" if sch else ""
                     if au is None:
-                        if sch not in ("file", "http"):
+                        if sch not in ("file", "http", ""):
                             continue
-                        out.append(f"{sch}:{p}{q}{f}")
+                        if not sch and (p.startswith("//") or ":" in p.split("/")[0]):
+                            continue  # would read as an authority / a scheme
+                        out.append(f"{pre}{p}{q}{f}")
                         if p.startswith("/") and len(p) > 1:
-                            out.append(f"{sch}:{p[1:]}{q}{f}")
+                            out.append(f"{pre}{p[1:]}{q}{f}")
                     else:
-                        out.append(f"{sch}://{au}{p}{q}{f}")
+                        out.append(f"{pre}//{au}{p}{q}{f}")
     return out
 
 
